@@ -54,7 +54,7 @@ def userSave (s : SyncLayer) (frame : Frame) (checksum : Option Nat) : SyncLayer
 
 def setFrameDelay (s : SyncLayer) (handle : Nat) (delay : Nat) : M (SyncLayer × List PlayerInput) := do
   ensure (handle < s.numPlayers) "set_frame_delay: handle out of range"
-  let (q, fills) := (rget s.queues handle).setFrameDelay delay
+  let (q, fills) ← (rget s.queues handle).setFrameDelay delay
   return ({ s with queues := rset s.queues handle q }, fills)
 
 def resetPrediction (s : SyncLayer) : SyncLayer :=
